@@ -50,6 +50,100 @@ CHECKS = {
             "Trusted: exact peak from the ends and the integer neighbours of the vertex (self-checked by brute "
             "force over all ticks for T <= 3000).",
             "DESIGN.md section 3 C17"),
+    "C08": ("exploration",
+            "runtime contract on the real clip_segment + exact (Fraction) Liang-Barsky oracle against the "
+            "rectangle shrunk/grown by the tolerance; loop-iteration hook on clip_code",
+            "Every clip_segment answer observed (4.5e4 quick, ~1.1e7 thorough; all 81 endpoint region pairs, "
+            "corner crossings, edge-collinear, vertical/horizontal/zero-length, zero-width and zero-area "
+            "rectangles, lattice, scales 1e-3..1e6, far outliers) satisfies: reject only if nothing is inside by "
+            "more than tol; accept only if something is inside within tol, returned endpoints on the input "
+            "segment and inside the rectangle, orientation kept, inside part covered; no exception; loop passes "
+            "counted (<= 5 observed).",
+            "Trusted: exact rational geometry in vmon/props/C08.py; tol = 1e-9 x max|coordinate| is the "
+            "reading of 'tiny relative to the coordinate scale'; |coordinate| <= 1e12.",
+            "DESIGN.md section 3 C08"),
+    "C09": ("exploration",
+            "runtime contracts (snapshot + post-condition) on the real supersample and on the real "
+            "points_in_tolerance (every internal call), exact rational distance oracle",
+            "Every supersample call observed (5e3 paths quick / ~1.4e6 thorough, up to 400 vertices) leaves an "
+            "in-order identity-subsequence that keeps both ends, is unchanged for <= 2 vertices or tolerance <= 0, "
+            "and every deleted vertex is within tolerance of the chord of its surviving neighbours (exact); every "
+            "points_in_tolerance call (1.2e5 quick) agrees with the exact verdict and with max_dist_from_n_points.",
+            "Trusted: exact rational distance (float pre-filter only when the margin exceeds any rounding error); "
+            "a relative band of 1e-9 around equality is counted as borderline and not decided.",
+            "DESIGN.md section 3 C09"),
+    "C10": ("exploration",
+            "runtime contract (deep snapshot + post-condition) on the real subdivideCubicPath, dyadic de "
+            "Casteljau tree of the ORIGINAL curve in exact rationals, termination guard hook",
+            "Every subdivideCubicPath call observed (1.8e3 paths / 2.1e5 pieces quick; ~4.8e5 paths thorough): "
+            "original node objects survive in order with points and outer handles intact; the new pieces of each "
+            "original piece are exactly its restrictions to consecutive dyadic intervals tiling [0,1] (so inserted "
+            "nodes are on the curve and neighbouring handles were rewritten consistently); both inner control "
+            "points of every final piece are within the flatness of its chord; a loop guard bounds every call.",
+            "Trusted: exact de Casteljau in Fractions; piece equality within 1e-9 x scale; flat/scale >= 1e-5.",
+            "DESIGN.md section 3 C10"),
+    "C11": ("exploration",
+            "runtime contract on the real vb_scale + SVG 1.1 section 7.8 rule written directly in exact rationals, "
+            "compared through the mapping of the viewBox corners",
+            "Every vb_scale answer observed (5e4 quick, ~8e6 thorough) maps the viewBox corners where SVG "
+            "prescribes, in all 19 align/meetOrSlice combinations x {doc aspect <, ==, > viewBox aspect} (all 57 "
+            "cells + absent attribute required), with defer, case and separator variants; missing / malformed "
+            "viewBox (None, empty, < 4 numbers, non-numeric tokens, non-positive sizes) gives the identity.",
+            "Trusted: the oracle's reading of SVG 1.1 7.8; relative tolerance 1e-9 of the coordinate scale.",
+            "DESIGN.md section 3 C11"),
+    "C12": ("exploration",
+            "runtime contracts on the real parseLengthWithUnits / unitsToUserUnits + independent unit table in "
+            "exact rationals + cross-function agreement checks (round trip, attribute readers)",
+            "For every generated numeral x unit x whitespace string (6e4 quick, ~8e6 thorough): parse yields the "
+            "value and unit; unitsToUserUnits = value x SVG factor; userUnitToUnits returns the value; getLength "
+            "agrees; getLengthInches x 96 agrees; % uses the reference; unsupported / malformed text gives None "
+            "from all of them and never raises.",
+            "Trusted: the independent factor table (96 px/in); numerals exclude inf/nan spellings and '_'.",
+            "DESIGN.md section 3 C12"),
+    "C13": ("exploration",
+            "history monitor: hooks on the real Index.__init__/remove_path keep a shadow model of live paths; "
+            "icontract post-condition on the real Index.nearest checks every answer against the shadow model and "
+            "the grid geometry the object publishes; exactly-once tour check",
+            "Every nearest() answer observed across removal histories (4.4e4 answers quick, ~1.2e7 thorough): "
+            "None iff nothing is live; identifier in range, of a live path, reversed end only when enabled; true "
+            "nearest whenever one lies within one cell width of an in-grid query; no live end certainly in the 3x3 "
+            "neighbourhood is closer; global nearest when the neighbourhood is certainly empty; greedy tours visit "
+            "every path exactly once.",
+            "Trusted: shadow model; grid geometry read from the object; ends/queries within 1e-9 of a cell "
+            "border are not used for the neighbourhood clause.",
+            "DESIGN.md section 3 C13"),
+    "C14": ("exploration",
+            "hooks on the real rtree.Index.__init__ (collection registry, node-count guard) + icontract "
+            "post-condition on the real top-level intersection() == brute force on the same floats",
+            "Every top-level intersection() answer observed (4.5e4 quick, ~1.2e7 thorough; lattice boxes on the "
+            "split lines, zero-width/zero-height strokes, points, duplicates, nested, tilings; queries touching "
+            "by an edge / corner, degenerate, covering, disjoint) equals the brute-force id set; every "
+            "construction completed under a node-count guard.",
+            "Trusted: brute-force closed-interval overlap test on the same floats (no tolerance).",
+            "DESIGN.md section 3 C14"),
+    "C18": ("exploration",
+            "runtime contracts on the real checkLimits / checkLimitsTol / constrainLimits / point_in_bounds, "
+            "exact rational comparison oracle, exhaustive small-integer grid + stratified generator",
+            "Every answer observed (exhaustive grid of 1092 small-integer cases + 6e4 quick / ~1.2e7 thorough "
+            "stratified cases incl. values exactly at each bound and at bound +- tolerance, lower == upper, "
+            "tolerance 0) returns the value itself inside the range and the nearer bound outside, flags exactly "
+            "the outliers (beyond tolerance for the tolerant checker), and point_in_bounds agrees with the "
+            "tolerant checker per coordinate.",
+            "Trusted: Fraction comparisons; random-double cases within 4 ulp of bound +- tolerance are counted "
+            "as borderline, not decided.",
+            "DESIGN.md section 3 C18"),
+    "C20": ("exploration",
+            "runtime contracts on the real xml_escape (syntactic check + lxml read-back in three contexts) and "
+            "format_hms (printed text parsed back to seconds)",
+            "Every escaped string observed (2.5e4 quick, ~3.2e6 thorough over XML Char incl. pre-escaped text, "
+            "mixed quotes, astral characters) has no special character outside the five entities and is read back "
+            "unchanged as element content and in both attribute quotings; every duration (6e4 quick, ~8e6 "
+            "thorough, boundaries at 10, 59.5, 60, 3599.5, 3600, k*60, k*3600, exact .5 ties, ms input) is printed "
+            "to the ms under 10 s, else encodes the nearest second with fields 00..59 in the form chosen by the "
+            "rounded value. Known finding F9 (literal TAB/LF/CR are normalised by XML parsers) is reported as "
+            "KNOWN-FINDING.",
+            "Trusted: lxml/libxml2 as the standard parser; ties may round either way.",
+            "DESIGN.md section 3 C20"),
 }
 
 NOT_YET = "monitor not built yet in this revision (planned, see DESIGN.md)"
